@@ -601,6 +601,9 @@ func c15Levels(tier string) []core.Level {
 			for k := 0; k < 4; k++ {
 				emit(core.Case{Fam: "mutate", N: []int{k}})
 			}
+			for k := 0; k < 5; k++ {
+				emit(core.Case{Fam: "zeros", N: []int{k}})
+			}
 		}},
 		{Name: "every integer of the 16-bit kinds (-32768..65535) in every Go numeric type that holds it", Gen: func(emit func(core.Case)) {
 			for i := -32768; i <= 65535; i++ {
@@ -805,8 +808,42 @@ func c15Run(c core.Case) core.Result {
 	return res
 }
 
+// c15Zeros: the two float zeros, the integer zero and small whole floats coerced one after the other in this process,
+// in the given order: each spells itself whatever was coerced before ("0", "-0", "1", "-1", ...).
+func c15Zeros(order int) core.Result {
+	negz := math.Copysign(0, -1)
+	seqs := [][]stick.Value{{negz, 0.0, 0, negz, float32(0)}, {0.0, negz, 0, 0.0}, {1.0, -1.0, negz, 0.0, 256.0, -256.0}, {float32(negz), 0.0, negz}, {int8(0), negz, uint(0), 0.0}}
+	for _, v := range seqs[order] {
+		want := "0"
+		switch x := v.(type) {
+		case float64:
+			want = strconv.FormatFloat(x, 'g', -1, 64)
+		case float32:
+			want = strconv.FormatFloat(float64(x), 'g', -1, 32)
+		}
+		if got := stick.CoerceString(v); got != want {
+			return core.Violation("string", fmt.Sprintf("CoerceString(%T(%v)) = %q, want %q (sequence %d of zeros and small whole numbers coerced in one process: %v)", v, v, got, want, order, seqs[order]))
+		}
+		out, err, pan := tryExec(c15CoreEnvGet(), "{{ v }}|{{ v ~ 'x' }}|{{ v == '0' ? 'eq' : 'ne' }}", map[string]stick.Value{"v": v})
+		wantOut := want + "|" + want + "x|" + map[bool]string{true: "eq", false: "ne"}[want == "0"]
+		if pan != "" || err != nil || out != wantOut {
+			return core.Violation("printed", fmt.Sprintf("{{ v }}|{{ v ~ 'x' }}|{{ v == '0' }} with v = %T(%v) renders %q (%v %s), want %q (sequence %d)", v, v, out, err, pan, wantOut, order))
+		}
+	}
+	return core.Okay(true, "zeros")
+}
+
+func c15CoreEnvGet() *stick.Env {
+	if c15CoreEnv == nil {
+		c15PrintLaw([]stick.Value{1})
+	}
+	return c15CoreEnv
+}
+
 func c15RunBase(c core.Case) core.Result {
 	switch c.Fam {
+	case "zeros":
+		return c15Zeros(c.N[0])
 	case "misc":
 		return c15MiscRun(c.N[0])
 	case "pair":
